@@ -319,22 +319,21 @@ def rule_i4(repo):
         methods = set(cls.methods) - set(props)
         a, b = f.params()[:2]
         cfg = cfg_of(f.node)
+        pred = lambda e: isinstance(e, ast.Name) and e.id == a
+        reach_of = {k: cfg.reach_from(cfg.entry, skip_edges=infeasible_edges(cfg, pred, k, kinds, consts)) for k in kinds}
         for k in kinds:
-            pred = lambda e: isinstance(e, ast.Name) and e.id == a
-            skip = infeasible_edges(cfg, pred, k, kinds, consts)
-            reach = cfg.reach_from(cfg.entry, skip_edges=skip)
-            # the last return reachable for this kind (after size / ty have been found equal)
-            rets = [n for n in cfg.return_nodes() if n.id in reach and n.ast.value is not None]
-            kind_rets = []
-            for r in rets:
-                la = {x.attr for x in ast.walk(r.ast.value) if isinstance(x, ast.Attribute) and is_name(x.value, a)}
-                if la - {'ty'} and not any(call_attr(c) == 'size' for c in ast.walk(r.ast.value) if isinstance(c, ast.Call)):
-                    kind_rets.append(r)
-            fa = set()
-            fb = set()
-            for r in kind_rets:
-                fa |= {x.attr for x in ast.walk(r.ast.value) if isinstance(x, ast.Attribute) and is_name(x.value, a)}
-                fb |= {x.attr for x in ast.walk(r.ast.value) if isinstance(x, ast.Attribute) and is_name(x.value, b)}
+            # what is evaluated for this kind only (the common prelude - size, constructor tag - is reachable for every kind):
+            # whether the parts are compared in one returned expression or one after the other makes no difference
+            common = set.intersection(*[set(reach_of[j]) for j in kinds])
+            own = [n for n in cfg.nodes if n.id in reach_of[k] and n.id not in common]
+            fa, fb = set(), set()
+            for n in own:
+                for h in cfg.headers(n):
+                    called = {id(c.func) for c in ast.walk(h) if isinstance(c, ast.Call)}
+                    fa |= {x.attr for x in ast.walk(h) if isinstance(x, ast.Attribute) and is_name(x.value, a) and id(x) not in called}
+                    fb |= {x.attr for x in ast.walk(h) if isinstance(x, ast.Attribute) and is_name(x.value, b) and id(x) not in called}
+            fa -= {'ty'}
+            fb -= {'ty'}
             kc = repo.cls(rel, kcls[k])
             structural = {x for x in _init_fields(kc) if not x.startswith('_')} - IGNORED_FIELDS
             ok = fa == structural and fb == structural
